@@ -106,7 +106,7 @@ func c30Region(bit int) string {
 func TestMC_C30(t *testing.T) {
 	c := verifmc.Start(t, "C30", "exploration")
 	defer c.Finish()
-	c.SetRule("full product 4 signer keys x flag{0,1} x addressed-to{R1,R2,signer's own id} x called-as{R1,R2,signer's own id} x 15 timestamp offsets (exact seconds around every timeout) x timeout{0,1,10,3600}; every single-bit flip (1096) of 6 accepted messages under T=0 and T=10; flag-bit x other-bit double flips; lengths 0..140 x 2 paddings; 136 rotations; flag byte 0..255 unsigned and re-signed; all ordered pairs of a 12-message pool for signature and per-field transplants; 256 one-bit recipient variants; second network. A case is distinct by (timeout, called-as, offset class, message bytes with the timestamp replaced by its offset)")
+	c.SetRule("full product 4 signer keys x flag{0,1} x addressed-to{R1,R2,signer's own id} x called-as{R1,R2,signer's own id} x 21 timestamp offsets (exact seconds around every timeout) x timeout{0,1,10,3600}; timestamp wrap families (now +- k*2^55 +- eps, +-2^n, k*2^64/{1e3,1e6,1e9} floor/ceil, raw fields 0,1,2^63,2^64-1, unit confusion) x the same timeouts, re-signed by the named key; every single-bit flip (1096) of 6 accepted messages under T=0 and T=10; flag-bit x other-bit double flips; lengths 0..140 x 2 paddings; 136 rotations; flag byte 0..255 unsigned and re-signed; all ordered pairs of a 12-message pool for signature and per-field transplants; 256 one-bit recipient variants; second network. A case is distinct by (timeout, called-as, offset class, message bytes with the timestamp replaced by its offset)")
 	c.Assume("crypto.Key.Verify / Sign (Ed25519 over blake3) are the trusted base for the reference predicate 'signed by the key it names'; the by-construction oracle (modified signed message must be rejected) does not use them",
 		"a single call of AuthenticateAs completes within one clock second in at least one of 100 attempts (otherwise the run reports broken, not a violation)")
 
@@ -189,11 +189,12 @@ func TestMC_C30(t *testing.T) {
 			dk += string(msg)
 		}
 		c.Distinct(dk)
-		replay := map[string]any{"kind": x.kind, "network": "fixc.NewNet(7,\"net7\") receiver=signer 0 (or net7-other for kind other-network)", "called_as": x.as.String(), "timeout_sec": x.timeout, "msg_hex": hex.EncodeToString(msg), "ts_minus_now_sec": int64(ts) - r.sec, "note": "rebuild the message with ts = now + ts_minus_now_sec and re-sign when replaying later"}
+		replay := map[string]any{"kind": x.kind, "network": "fixc.NewNet(7,\"net7\") receiver=signer 0 (or net7-other for kind other-network)", "called_as": x.as.String(), "timeout_sec": x.timeout, "msg_hex": hex.EncodeToString(msg), "ts_minus_now_sec": int64(ts) - r.sec, "ts_field": fmt.Sprint(ts), "note": "rebuild the message with ts = now + ts_minus_now_sec and re-sign when replaying later"}
 
 		// reference predicate
 		lenOK := len(msg) == 137
 		var sigOK, rcptOK, skewOK, notSelf bool
+		var dist uint64
 		var peer crypto.Hash
 		if lenOK {
 			var key crypto.Key
@@ -202,14 +203,13 @@ func TestMC_C30(t *testing.T) {
 			copy(sig[:], msg[73:137])
 			verifmc.Catch(func() { sigOK = key.Verify(crypto.Blake3Hash(msg[:73]), sig) })
 			rcptOK = string(msg[8:40]) == string(x.as[:])
-			d := r.sec - int64(ts)
-			if ts > 1<<62 {
-				d = -(1 << 62)
+			// exact |now - ts| over the unsigned 64-bit timestamp (no wrap, no rounding)
+			nowU := uint64(r.sec)
+			dist = nowU - ts
+			if ts > nowU {
+				dist = ts - nowU
 			}
-			if d < 0 {
-				d = -d
-			}
-			skewOK = x.timeout <= 0 || d <= x.timeout
+			skewOK = x.timeout <= 0 || dist <= uint64(x.timeout)
 			var a common.Address
 			a.PublicSpendKey = key
 			verifmc.Catch(func() { a.PublicViewKey = key.DeterministicHashDerive().Public() })
@@ -244,10 +244,13 @@ func TestMC_C30(t *testing.T) {
 			viol("accept:wrong-recipient", fmt.Sprintf("accepted as %s although addressed to %x", x.as, msg[8:40]))
 		case !skewOK:
 			dir := "past"
-			if int64(ts) > r.sec {
+			if ts > uint64(r.sec) {
 				dir = "future"
 			}
-			viol("accept:outside-skew:"+dir, fmt.Sprintf("accepted with timestamp %d s from now, timeout %d", int64(ts)-r.sec, x.timeout))
+			if dist > 1<<32 {
+				dir += ":far"
+			}
+			viol("accept:outside-skew:"+dir, fmt.Sprintf("accepted with timestamp field %d, which is %d s in the %s of now=%d, timeout %d", ts, dist, dir, r.sec, x.timeout))
 		case !notSelf:
 			viol("accept:self", "accepted a message signed by the receiver's own identity")
 		}
@@ -347,6 +350,94 @@ func TestMC_C30(t *testing.T) {
 	c.Set("product_cases_expected_accept", e1WantAccept)
 	c.Set("product_cases_accepted", e1Accept)
 	lap("product")
+
+	// ---- E1b: integer / float wrap families of the timestamp ----
+	// The real builder cannot stamp these (time.Duration spans only +-292 years),
+	// so a real builder message gets its timestamp overwritten and is re-signed
+	// by the named key: valid in every respect except freshness. delta is added
+	// to the current second modulo 2^64; the reference distance is exact.
+	{
+		deltaSet := map[uint64]bool{}
+		add := func(v uint64) { deltaSet[v] = true; deltaSet[-v] = true }
+		eps := []uint64{0, 1, 2, 9, 10, 11, 3599, 3600, 3601}
+		around := func(v uint64) {
+			for _, e := range eps {
+				add(v + e)
+				add(v - e)
+			}
+		}
+		for _, k := range []uint64{1, 2, 3, 127, 128, 129, 255, 256} { // k*2^55 s * 1e9 = 0 mod 2^64
+			around(k << 55)
+		}
+		for _, sh := range []uint{31, 32, 33, 40, 52, 53, 54, 56, 61, 62, 63} {
+			add(1 << sh)
+			add(1<<sh - 1)
+			add(1<<sh + 1)
+		}
+		add(1<<63 - 1)
+		add(1<<64 - 1)
+		// unit wraps: k * 2^64 / unit and 2^63 / unit seconds, floor and ceiling, +-1
+		for _, unit := range []uint64{1000, 1000000, 1000000000} {
+			for _, k := range []uint64{1, 2, 3, 128, 255} {
+				// floor(k * 2^64 / unit) without overflow: q*k + (r*k)/unit
+				q, r := (1<<64-1)/unit, (1<<64-1)%unit+1
+				v := q*k + (r*k)/unit
+				for _, e := range []uint64{0, 1, 2} {
+					add(v + e)
+					add(v - e)
+				}
+			}
+			h := (uint64(1) << 63) / unit
+			add(h)
+			add(h + 1)
+		}
+		raws := []uint64{0, 1, 2, 1 << 31, 1 << 32, 1<<63 - 1, 1 << 63, 1<<63 + 1, 1<<64 - 2, 1<<64 - 1}
+		s := signers[1]
+		var wrapCases, wrapAccT0 int64
+		run := func(kind string, flag int, tsOf func(now uint64) uint64) {
+			for _, T := range timeouts {
+				m := s.builder(flag == 1).BuildAuthenticationMessage(R1)
+				ts := tsOf(binary.BigEndian.Uint64(m[:8]))
+				binary.BigEndian.PutUint64(m[:8], ts)
+				sig := s.addr.PrivateSpendKey.Sign(crypto.Blake3Hash(m[:73]))
+				copy(m[73:], sig[:])
+				w := 0
+				if T == 0 {
+					w = 1
+				}
+				wrapCases++
+				if judge(ctx{kind: kind, node: recv.Node, as: R1, msg: m, timeout: T, signer: s, flag: flag, wantAccept: w}) && T == 0 {
+					wrapAccT0++
+				}
+			}
+		}
+		for d := range deltaSet {
+			if d < 1<<30 || -d < 1<<30 {
+				continue // genuinely near offsets belong to the pinned product above
+			}
+			d := d
+			for flag := 0; flag < 2; flag++ {
+				run("wrap-offset", flag, func(now uint64) uint64 { return now + d })
+			}
+		}
+		for _, raw := range raws {
+			raw := raw
+			for flag := 0; flag < 2; flag++ {
+				run("raw-timestamp", flag, func(uint64) uint64 { return raw })
+			}
+		}
+		// "now" mistaken for another unit
+		for _, mul := range []uint64{1000, 1000000, 1000000000} {
+			mul := mul
+			run("unit-confusion", 0, func(now uint64) uint64 { return now * mul })
+		}
+		c.Set("wrap_family_deltas", len(deltaSet))
+		c.Set("wrap_family_cases", wrapCases)
+		if c.Violations() == 0 {
+			c.Require(wrapAccT0*int64(len(timeouts)) == wrapCases, "wrap families: %d accepted under T=0 of %d cases", wrapAccT0, wrapCases)
+		}
+	}
+	lap("wrap")
 
 	// ---- base messages for the mutation families ----
 	type base struct {
